@@ -90,6 +90,29 @@ def run_case(c):
     return rec
 
 
+def run_lookup_case(c):
+    """Replays a history with the lookup hook in logging mode (no shadow re-evaluation, which
+    would itself touch the caches): the recorded key material is validated by Val_Cache."""
+    import pyunicorn.core.cache as cache
+    cachetap.install(log=True, shadow=False)
+    fam = families.FAMILIES[c["family"]]
+    a = dict(families.INIT[c["family"]])
+    obj = fam.build(a)
+    observe(fam, obj, a)
+    for m, v in c["hist"]:
+        try:
+            fam.mutate(obj, m, v)
+        except Exception:
+            pass
+        a = families.apply_abs(a, m, v)
+        observe(fam, obj, a)
+        observe(fam, obj, a)          # a second pass: every query is now a hit on the current key
+    log = cachetap.drain()["log"]
+    cachetap.STATE["installed"] = False
+    return {"case": c["case"], "family": c["family"], "hist": c["hist"],
+            "maxsize": int(cache.Cached.lru_params["maxsize"]), "events": log}
+
+
 def _nontrivial(rec):
     return len(rec["hist"]) >= 1
 
@@ -153,10 +176,42 @@ def main(ctx):
         from vlib.core import Machinery
         raise Machinery("the cache lookup hook reported no hit at all: NoStaleHit would be vacuous")
     ctx.validate("Val_C01", "Val_C01", recs, nontrivial=_nontrivial, xmx="4g")
+    mechanism(ctx, cases)
+
+
+def mechanism(ctx, cases):
+    """CacheProtocol: the design model under TLC (with its two negative controls), and the real
+    lookup sequences of a sample of histories validated against its Lookup action."""
+    from vlib.core import Machinery
+    for cfg, expect in (("MC_Cache_good" if ctx.tier == "quick" else "MC_Cache_good_deep", False),
+                        ("MC_Cache_missingbump", True), ("MC_Cache_reset", True)):
+        r = ctx.tlc("MC_Cache", cfg, workers=8, xmx="6g")
+        if r.error:
+            raise Machinery("MC_Cache/%s failed\n%s" % (cfg, r.error[-1500:]))
+        if bool(r.violated) != expect:
+            raise Machinery("MC_Cache/%s: %s" % (cfg, "negative control passed (the model cannot see a missing "
+                            "bump / a counter reset)" if expect else "NoStaleHit fails under the discipline: %r"
+                            % (r.violated,)))
+        ctx.stages.append({"stage": "MC CacheProtocol/" + cfg, "states": r.distinct,
+                           "expected_violation": expect, "violated": [v[1] for v in r.violated]})
+    per = 3 if ctx.tier == "quick" else 12
+    sample, seen = [], {}
+    for c in cases:
+        if seen.get(c["family"], 0) < per:
+            seen[c["family"]] = seen.get(c["family"], 0) + 1
+            sample.append(dict(c, case="lk_" + c["case"]))
+    recs = ctx.run_cases("props.c01.run_lookup_case", sample)
+    ctx.extra["mechanism_lookups_validated"] = sum(len(r.get("events", [])) for r in recs)
+    ctx.validate("Val_Cache", "Val_Cache", recs, stage="Val_Cache",
+                 nontrivial=lambda r: any(e["hit"] for e in r.get("events", [])), xmx="4g")
 
 
 def replay(ctx, rep):
     rec = rep["record"]
     case = {"case": rec["case"], "family": rec["family"], "hist": rec["hist"]}
+    if rec["case"].startswith("lk_"):
+        recs = ctx.run_cases("props.c01.run_lookup_case", [case], jobs=1)
+        ctx.validate("Val_Cache", "Val_Cache", recs, stage="Val_Cache")
+        return
     recs = ctx.run_cases("props.c01.run_case", [case], jobs=1)
     ctx.validate("Val_C01", "Val_C01", recs, nontrivial=_nontrivial)
